@@ -297,6 +297,10 @@ kastore_read_descriptors(kastore_t *self)
         }
         self->items[j].key_start = (size_t) key_start;
         self->items[j].key_len = (size_t) key_len;
+        /* Guard the multiplication: a huge array_len must not wrap around */
+        if (array_len > self->file_size / type_size(type)) {
+            goto out;
+        }
         if (array_start + array_len * type_size(type) > self->file_size) {
             goto out;
         }
